@@ -6,6 +6,7 @@ import (
 	"bytes"
 	"context"
 	"errors"
+	corecrl "github.com/notaryproject/notation-core-go/revocation/crl"
 	"io"
 	"net/http"
 	"sync"
@@ -13,12 +14,12 @@ import (
 
 // Request is one logged HTTP request.
 type Request struct {
-	Method     string
-	URL        string
-	Base       string // scheme://host/firstsegment — the logical server
-	Body       []byte
-	FollowUp   bool // issued by http.Client for a redirect (req.Response != nil)
-	CtxErr     error
+	Method      string
+	URL         string
+	Base        string // scheme://host/firstsegment — the logical server
+	Body        []byte
+	FollowUp    bool // issued by http.Client for a redirect (req.Response != nil)
+	CtxErr      error
 	ContentType string
 }
 
@@ -124,3 +125,10 @@ func (t *Transport) Requests() []Request {
 func (t *Transport) Client() *http.Client { return &http.Client{Transport: t} }
 
 var _ = context.Background
+
+// FetcherFunc adapts a function to crl.Fetcher.
+type FetcherFunc func(ctx context.Context, url string) (*corecrl.Bundle, error)
+
+func (f FetcherFunc) Fetch(ctx context.Context, url string) (*corecrl.Bundle, error) {
+	return f(ctx, url)
+}
